@@ -117,7 +117,7 @@ def run(ctx, model_ok):
     ctx.rule = ('synthetic v2 / v3 dumps (0..40 events over 3 thread ids x 5 event ids incl. boundary ids, 0..8 log records '
                 'with/without process name and pid) x filter configurations (tid None/present/0/absent; class and subclass '
                 'lists empty / single / overlapping / class equal to the top byte of a subclass / 300-entry lists; process '
-                'None/name/str(pid)/empty/non-matching); every third case is served by a parser object that answered 1..4 requests '
+                'None/name/str(pid)/empty/non-matching); the kevents / logs commands of the command line with their filter options against the API; every third case is served by a parser object that answered 1..4 requests '
                 'with OTHER settings before; non-trivial = distinct case where the filtered listing is a '
                 'non-empty proper subsequence of the unfiltered one (events or logs)')
     cases, idx = [], []
@@ -140,6 +140,9 @@ def run(ctx, model_ok):
             ctx.nontrivial.add(req['file'] + repr(cfg))
         cases.append(to_case(cfg, evs, logs, r))
         idx.append(i)
+    # the command line: `kevents` / `logs` with --tid, --process, -cf, -sf print the API's listing for those settings
+    from . import cli_common
+    cli_common.run(ctx, ['kevents', 'logs'], 30 if ctx.quick() else 500)
     ctx.samples = [{'cfg': gens[i][0]['cfg'], 'events(tid,eventid,uid)': gens[i][1][:6], 'impl': res[i]} for i in (0, 1)]
     if model_ok:
         bad, errors = vlib.run_model_cases('C12', HEADER, 'fcase', 'fcheck', cases, per_file=100)
